@@ -313,7 +313,24 @@ func runBackendWorkload(t *testing.T, workload, backend, serverKind string, conc
 	}
 	srv := theWSServer(serverKind)
 	addr := strings.TrimPrefix(srv.srv.URL, "http://")
+	runCase := func(c *vrun.Case) vrun.Result {
+		return runBackendCase(c, srv, addr, workload, backend, serverKind, grid, variants, concurrentOK, forceConcurrent)
+	}
 	vrun.Loop(t, meta, 0, func(c *vrun.Case) vrun.Result {
+		r := runCase(c)
+		if forceConcurrent && r.Verdict == vrun.Violated && !strings.HasPrefix(r.FindingKey, "websocket:") {
+			// one defect, one key: whatever breaks first (panic in gorilla's "concurrent write" guard, a frame torn
+			// apart, a write or read error) is a manifestation of unserialised writers
+			r.Witness = map[string]any{"manifestation": r.FindingKey, "clause": r.Clause, "detail": r.Witness}
+			r.Clause = "concurrent Transport.Write calls on the gorilla backend are not serialised: " + r.Clause
+			r.FindingKey = "ws-gorilla:concurrent-transport-write-not-serialised"
+		}
+		return r
+	})
+}
+
+func runBackendCase(c *vrun.Case, srv *wsServer, addr, workload, backend, serverKind string, grid []backendPoint, variants int, concurrentOK, forceConcurrent bool) vrun.Result {
+	{
 		bp := grid[c.Index/variants]
 		variant := c.Index % variants
 		rng := c.Rng
@@ -413,7 +430,7 @@ func runBackendWorkload(t *testing.T, workload, backend, serverKind string, conc
 			{from: 1, sent: p[1], recv: ex.reads[0], frames: out, haveTap: true, framedLen: outB, tx: server.TxBytesCounterValue(), rx: client.RxBytesCounterValue(), haveTx: true, haveRx: true},
 		}
 		return finishCase(desc, prefix, gp, eff, vname, writers, concurrent, dirs)
-	})
+	}
 }
 
 // finishCase judges both directions and builds the result (shared by the socket workloads).
